@@ -31,6 +31,7 @@ RULE = ("tb family: call chains f0->..->fk (k<=5) whose links are drawn from {ex
         "dict/f-string operands, list comprehension, method call on an instance, decorator wrapper, module function}, a "
         "fault drawn from {ZeroDivisionError, KeyError, IndexError, TypeError, ValueError, AttributeError, NameError, "
         "AssertionError, user exception class, RuntimeError, `raise .. from ..`, exception raised while handling another, "
+        "`raise .. from None` inside a handler (suppressed context), "
         "OverflowError, and three faults whose innermost node spans several lines} at every statement position of the deepest function or of an "
         "intermediate one, entered by call_func, by a direct EvalFunc.call or at file load; direct recursion and a failing "
         "module import at load time as fixed shapes.  entry family: the same fault kinds through 8 entry-point kinds x 2 "
@@ -60,6 +61,11 @@ FAULTS = {
     "from": (["raise RuntimeError('r') from ValueError('v')"], "RuntimeError"),
     "from_caught": (["try:", "    1 / 0", "except ZeroDivisionError as exc0:", "    raise KeyError('k') from exc0"], "KeyError"),
     "context": (["try:", "    1 / 0", "except ZeroDivisionError:", "    {}['x']"], "KeyError"),
+    # the context is suppressed: Python prints ONE traceback
+    "from_none": (["try:", "    1 / 0", "except ZeroDivisionError:", "    raise KeyError('k') from None"], "KeyError"),
+    "from_none_nested": (["try:", "    try:", "        1 / 0", "    except ZeroDivisionError as exc0:",
+                          "        raise ValueError('v') from exc0", "except ValueError:", "    raise KeyError('k') from None"],
+                         "KeyError"),
     "overflow": (["10.0 ** 1000"], "OverflowError"),
     # faults whose innermost AST node spans several lines (Python names the node's first line)
     "zerodiv_ml": (["y = (1 /", "     0)"], "ZeroDivisionError"),
@@ -284,6 +290,17 @@ def _stack_entries(fmt, root):
     return out
 
 
+def _chain_kinds(text):
+    """which chained sections a formatted report has, in order: 'cause' / 'context' per joining sentence"""
+    out = []
+    for line in text.splitlines():
+        if line.startswith("The above exception was the direct cause"):
+            out.append("cause")
+        elif line.startswith("During handling of the above exception"):
+            out.append("context")
+    return out
+
+
 def _chain(exc):
     """exceptions in the order the formatter prints them (causes first)"""
     seq = []
@@ -327,13 +344,19 @@ async def ps_tb(p, root):
     if exc is None:
         return {"impl": "no-exception", "lines": []}
     parts, lines = [], []
-    for e in _chain(exc):
-        fmt = EvalExceptionFormatter(e)
+    top = EvalExceptionFormatter(exc)
+    sections = []                      # the formatter's own chain: innermost printed first
+    f = top
+    while f is not None:
+        sections.insert(0, f)
+        f = f.chained_exc
+    for fmt in sections:
         ents = _stack_entries(fmt, root)
         parts.append("[" + " ".join(f"{f}|{n}|{l}" for f, n, l in ents) + "]")
-        lines.append("C18 " + sx(["fmt", dump_frames(e, root)]))
+        lines.append("C18 " + sx(["fmt", dump_frames(fmt.exc, root)]))
     last = traceback.format_exception_only(exc)[-1].strip()
-    return {"impl": " ; ".join(parts), "lines": lines, "last": last}
+    return {"impl": " ; ".join(parts), "lines": lines, "last": last,
+            "chain_impl": _chain_kinds("".join(top.format()))}
 
 
 def py_tb(p, root):
@@ -365,7 +388,8 @@ def py_tb(p, root):
                 if r is not None:
                     ents.append(f"{r}|{fs.name}|{fs.lineno}")
             parts.append("[" + " ".join(ents) + "]")
-        return {"oracle": " ; ".join(parts), "last": traceback.format_exception_only(exc)[-1].strip()}
+        return {"oracle": " ; ".join(parts), "last": traceback.format_exception_only(exc)[-1].strip(),
+                "chain_py": _chain_kinds("".join(traceback.format_exception(exc)))}
     finally:
         sys.path[:] = old
         for k in set(sys.modules) - before:
@@ -504,7 +528,10 @@ def entry_sources(p):
     a = ENTRY_SRC.replace("    FAULT\n", "".join("    " + l + "\n" for l in fl))
     m = "class MyErr(Exception):\n    pass\n\n" + MOD_SRC.replace("    FAULT\n", "".join("    " + l + "\n" for l in fl))
     files = {"a.py": a, "modules/m.py": m,
-             "bad.py": "ok_before = 1\n\ndef boom(x):\n" + "".join("    " + l + "\n" for l in fl) + "    return x\n\nboom(0)\n",
+             "bad.py": "ok_before = 1\n\n@service\ndef bad_svc():\n    rec('bad_svc')\n\n"
+                       "@event_trigger(\"ev_bad\")\ndef bad_trig(**kw):\n    rec('bad_trig')\n\n"
+                       "@state_trigger(\"pyscript.bad_v == '1'\")\ndef bad_st(**kw):\n    rec('bad_st')\n\n"
+                       "def boom(x):\n" + "".join("    " + l + "\n" for l in fl) + "    return x\n\nboom(0)\n",
              "badimp.py": "import badmod\n\n@service\ndef never():\n    rec('never')\n",
              "modules/badmod.py": "q = 1\n\n1 / 0\n",
              "good.py": "@service\ndef good_svc():\n    rec('good')\n",
@@ -589,6 +616,21 @@ def run_entry(p):
         res["load"] = {"loaded": loaded,
                        "script": [(n, parse_tb(m, env.cfgdir), m.strip().splitlines()[-1] if m.strip() else "") for n, m in script],
                        "other": [(n, m.strip().splitlines()[0][:80] if m.strip() else "") for n, m in other]}
+        # ---- nothing of the file that failed to load may be left behind
+        left = []
+        r0 = len(env.records)
+        if env.hass.services.has_service("pyscript", "bad_svc"):
+            left.append("service pyscript.bad_svc is registered")
+        try:
+            await env.call("pyscript", "bad_svc")
+        except Exception:  # pylint: disable=broad-except
+            pass
+        await env.fire("ev_bad", {})
+        await env.set_state("pyscript.bad_v", "0")
+        await env.set_state("pyscript.bad_v", "1")
+        await env.settle(0.2)
+        left += [f"{r[1]} ran" for r in env.records[r0:] if str(r[1]).startswith("bad_")]
+        res["load"]["leftover"] = left
         for kind in ENTRY_KINDS:
             await env.set_state("pyscript.d1", "1")
             await env.set_state("pyscript.d2", "1")
@@ -925,6 +967,9 @@ def verdict(c):
             return None if r["impl"] == r.get("oracle") else f"exception raised on one side only: pyscript {r['impl'][:40]} CPython {r.get('oracle', '')[:40]}"
         if any(a != "1" for a in p.get("_accept", [])):
             return "frame sequence outside the frame grammar"
+        if r.get("chain_impl") != r.get("chain_py"):
+            return (f"chained sections of the report differ: pyscript prints {r.get('chain_impl')} "
+                    f"({len(r['impl'].split(' ; '))} tracebacks), CPython {r.get('chain_py')} ({len(r['oracle'].split(' ; '))})")
         a, b = script_only(r["impl"]), r["oracle"]
         if a != b:
             return f"traceback differs from CPython: pyscript {a} CPython {b}"
@@ -1012,6 +1057,8 @@ def verdict(c):
     for bad in ("file.bad", "file.badimp"):
         if bad in ld["loaded"]:
             return f"load: {bad} raised at load time but is registered"
+    if ld.get("leftover"):
+        return f"load: file.bad raised at load time but parts of it are still live: {ld['leftover']}"
     by = {}
     for n, tb, last in ld["script"]:
         by.setdefault(n, []).append(tb)
